@@ -977,7 +977,7 @@ class SP(Robot):
         fk = lambda x : (self._IKHelper(tm(x), plate_pos)[0] - L).reshape((6))
 
         #solres = sci.optimize.fmin(fkprime, self.getTopT().TAA, disp=True)
-        init = self.getTopT().TAA
+        init = self.getTopT().TAA.copy()
         found_sol = True
         solres = sci.optimize.fsolve(fk, init)
         sol = tm(solres)
@@ -988,6 +988,8 @@ class SP(Robot):
         for j in range(6):
             if abs(abs(L[j]) - abs(nLens[j])) > 0.00001 or not self.validate(True):
                 if allow_fallback:
+                    #Start the other solver from where this one started, not from its failed result
+                    self.IK(top_plate_pos = tm(init), bottom_plate_pos = plate_pos, protect = True)
                     return self._FKRaphson(L, plate_pos, protect)
                 #Both solvers failed: reset to the neutral pose instead of recursing forever
                 self.IK(top_plate_pos = plate_pos @ self._nominal_plate_transform,
